@@ -4,6 +4,7 @@ Sample value at channel-relative index g is val(g) (never the fill value, never 
 import json
 import os
 import sys
+import time
 
 import numpy as np
 import digital_rf
@@ -50,6 +51,8 @@ def main():
         try:
             w.rf_write(a, g0)
             say("write%d" % i, True)
+            if sp.get("sleep_ms"):
+                time.sleep(sp["sleep_ms"] / 1000.0)
         except BaseException as e:  # noqa
             say("write%d" % i, False, repr(e)[:200])
     mark("begin-close")
